@@ -412,11 +412,12 @@ Definition g_escapes (g : rawglobal) : bool := let '(_, _, _, _, e, _) := g in e
 Definition mutated_names (gl : list rawglobal) : list string :=
   map (fun g => g_pkg g ++ "." ++ g_name g)%string (filter g_mutated gl).
 
-(** escapes looked at by hand (part of the trusted base, listed in props.d/C18.json):
-    bt.defaultHex is returned by CalcInputPreimageLegacy for the SIGHASH_SINGLE out-of-range case;
-    inside the library the returned slice is only compared, hashed-as-is and handed to signature
-    verification, never written. A caller of the public API could write into it. *)
-Definition audited_escapes : list (string * string) := [("bt", "defaultHex")].
+(** escapes looked at by hand (part of the trusted base, listed in props.d/C18.json): none.
+    (Until fix bc5d8f1 bt.defaultHex was on this list: CalcInputPreimageLegacy returned that package-level slice
+    itself for the SIGHASH_SINGLE out-of-range case, "a caller of the public API could write into it" — which is
+    exactly what made every later digest of that kind wrong; the library now returns a copy and the scan finds
+    no escape.) *)
+Definition audited_escapes : list (string * string) := [].
 
 Definition shares_nothing (gl : list rawglobal) (engine_fields : list string) (fresh : list (string * bool)) : bool :=
   forallb (fun g => negb (g_mutated g) &&
